@@ -2,7 +2,7 @@
 from checks._simple import run_simple
 
 PROVED_TARGETS = ["cascade.executor.comms:Listener._recv_one", "cascade.executor.comms:ReliableSender.send",
-                  "cascade.executor.comms:ReliableSender.ack", "cascade.executor.comms:ReliableSender.maybe_retry"]
+                  "cascade.executor.comms:ReliableSender.ack", "cascade.executor.comms:ReliableSender.maybe_retry", "cascade.executor.comms:Listener.recv_messages"]
 
 
 def run(tier, seed):
